@@ -20,7 +20,8 @@ MANIFEST = dict(
     text='Decides that for every admissible encoder choice (magic, widths, index, cache bits, CRC, stored hashes, cell order, several roots) the parser '
          'returns exactly the encoded roots, and that every truncation/extension, every corrupted byte of CRC-protected input (position-exhaustive, '
          'one flip per byte; all bits in thorough tier) and every dangling/backward/self reference raises. DAG fixtures are finite.'
-         ' Reference faults are refused in cells that no root reaches as well.',
+         ' Reference faults are refused in cells that no root reaches as well.'
+         ' Several bags parsed in one process are each decoded by their own header (every order of indexed / plain / checksummed bags). Stored hashes are never trusted, also when the stored depths are those of the real tree.',
     note='trusted: interpreter, sa/bocspec.py encoder. CRC-32C detecting every single-bit flip is a property of the code (C18 proves the CRC is the standard one); here it is exercised per position.',
     design_ref='DESIGN.md section 4 C05')
 
